@@ -437,6 +437,7 @@ func runC04(c *Ctx) {
 	// C04.15 variadic providers are called with arg...
 	ruleVariadicProviderCalls(c, "C04.15")
 	ruleUserSyntaxRequalified(c, "C04.16")
+	ruleArgumentTypeAsRequired(c, "C04.17")
 	ruleEllipsisOnlyLast(c, "C04.6")
 
 	// C04.10 user identifiers reach the allocator (shared with C12): otherwise a generated local can shadow a user name
@@ -664,6 +665,10 @@ func analyseWalkerDecl(L *Loaded, p *packages.Package, fd *ast.FuncDecl) *walker
 				}
 				chain = append([]string{sel.Sel.Name}, chain...)
 				cur = sel.X
+			}
+			// typ.(someInterface).Elem(): the clause variable seen through an interface that several kinds share
+			if ta, isTA := ast.Unparen(cur).(*ast.TypeAssertExpr); isTA && ta.Type != nil {
+				cur = ta.X
 			}
 			if id, ok := ast.Unparen(cur).(*ast.Ident); ok && obj != nil && p.TypesInfo.Uses[id] == obj && len(chain) > 0 {
 				acc[chain[0]] = true
